@@ -338,6 +338,21 @@ func init() {
 		return p.tt.Bool(was)
 	}
 
+	// ---- net/http, gorilla: not executed (DESIGN section 3.2) ----
+	I["net/http.ReadRequest"] = func(p *Path, c *frame, fn *ssa.Function, a []value) value {
+		// the HTTP parser is outside the encoder: the request is treated as unparseable
+		p.res.Reached["stub:http.ReadRequest"] = true
+		return tuple{(*value)(nil), iface{v: &errModel{msg: "http: request not parsed (stub)"}}}
+	}
+	I["net/http.Serve"] = func(p *Path, c *frame, fn *ssa.Function, a []value) value {
+		p.res.Reached["stub:http.Serve"] = true
+		p.httpServeCalls++
+		return iface{v: &errModel{msg: "http.Serve (stub)"}}
+	}
+	I["github.com/cbeuw/Cloak/internal/server/usermanager.APIRouterOf"] = func(p *Path, c *frame, fn *ssa.Function, a []value) value {
+		return (*value)(nil)
+	}
+
 	// ---- runtime odds and ends ----
 	I["runtime.SetFinalizer"] = noop
 	I["runtime.KeepAlive"] = noop
